@@ -21,6 +21,9 @@ import dbus
 from . import ref9174 as r, simloop, simnet, tcpcl_world as tw
 
 STATES = ['connecting', 'negotiating', 'established', 'transfer', 'ending']
+# one more, used with active contacts only: the peer has answered the contact header, and its SESS_INIT together with the
+# first segment of a transfer of its own are on their way (not yet delivered) when the action is applied
+PEER_AHEAD = 'peer-ahead'
 BUNDLE = bytes(range(60, 85))      # 25 octets, three segments at the peer's segment MRU of 10
 
 
@@ -42,6 +45,8 @@ class Contact(object):
         self.own_id = None
         self.level = 'silent'            # silent | ch | full
         self.was_established_at_action = False
+        self.hold = False                # the network holds back what the peer has written
+        self.ahead = None                # peer-ahead: 'started' after the START segment, 'done' after the END segment
 
     def wire(self):
         return r.parse_stream(bytes(self.real_pipe.log), expect_contact=True)[0]
@@ -88,6 +93,10 @@ class Contact(object):
                     self.peer_send({'t': 'XFER_ACK', 'flags': seg['flags'], 'id': seg['id'], 'length': cum[seg['id']]})
                     self.acked = idx + 1
                     did = True
+            if self.ahead == 'started':
+                self.ahead = 'done'
+                self.peer_send({'t': 'XFER_SEGMENT', 'flags': 1, 'id': 77, 'data': b'def'.hex()})
+                did = True
             if any(m['t'] == 'SESS_TERM' for m in msgs) and not self.replied:
                 self.replied = True
                 self.peer_send({'t': 'SESS_TERM', 'flags': 1, 'reason': 0})
@@ -126,7 +135,9 @@ class AgentWorld(object):
         for _ in range(rounds):
             moved = False
             for con in self.contacts:
-                if con.link.ab.deliver() or con.link.ba.deliver():
+                if con.real_pipe.deliver():
+                    moved = True
+                if not con.hold and con.peer_pipe.deliver():
                     moved = True
             for _i in range(50):
                 if not self.end.ctx.iterate():
@@ -148,8 +159,16 @@ class AgentWorld(object):
     def prepare(self):
         ''' Bring every contact into its state. '''
         for con in self.contacts:
-            con.level = {'connecting': 'silent', 'negotiating': 'ch'}.get(con.state, 'full')
+            con.level = {'connecting': 'silent', 'negotiating': 'ch', PEER_AHEAD: 'ch'}.get(con.state, 'full')
         self.pump()
+        for con in self.contacts:
+            if con.state == PEER_AHEAD:
+                con.hold = True
+                con.sent_init = True
+                con.peer_send({'t': 'SESS_INIT', 'keepalive': 0, 'segment_mru': 10, 'transfer_mru': 10 ** 6,
+                               'nodeid': 'dtn://peer%d/' % con.index, 'ext': []})
+                con.peer_send({'t': 'XFER_SEGMENT', 'flags': 2, 'id': 77, 'ext': [], 'data': b'abc'.hex()})
+                con.ahead = 'started'
         for con in self.contacts:
             if con.state == 'transfer':
                 con.level = 'ch'      # stop acknowledging
@@ -215,6 +234,7 @@ class AgentWorld(object):
     def release(self):
         for con in self.contacts:
             con.level = 'frozen' if con.index in self.hang else 'full'
+            con.hold = False
         return self.pump()
 
     def advance(self, ms):
